@@ -107,7 +107,7 @@ func NewRNode(id string, fwd bool, join string, clockMs int64) (*RNode, error) {
 	return n, nil
 }
 
-func waitFor(d time.Duration, cond func() bool) bool {
+func raftWaitFor(d time.Duration, cond func() bool) bool {
 	end := time.Now().Add(d)
 	for {
 		if cond() {
@@ -289,7 +289,7 @@ func (c *Cluster) Barrier(d time.Duration) ([]string, Result, bool) {
 	val := fmt.Sprintf("b%d", c.markers)
 	cmd := []string{"set", "__barrier", val}
 	res, _ := c.Leader().Exec(BarrierDb, cmd)
-	ok := waitFor(d, func() bool {
+	ok := raftWaitFor(d, func() bool {
 		for _, n := range c.Nodes {
 			raw := n.S.VerifSnapshot()
 			kd, found := raw.Store[BarrierDb]["__barrier"]
@@ -322,7 +322,7 @@ func newClusterOnce(clocks []int64) (*Cluster, error) {
 		return nil, err
 	}
 	c.Nodes = append(c.Nodes, lead)
-	if !waitFor(30*time.Second, lead.IsLeader) {
+	if !raftWaitFor(30*time.Second, lead.IsLeader) {
 		c.Shutdown()
 		return nil, fmt.Errorf("node 0 did not become leader")
 	}
@@ -334,12 +334,12 @@ func newClusterOnce(clocks []int64) (*Cluster, error) {
 			return nil, err
 		}
 		c.Nodes = append(c.Nodes, n)
-		if !waitFor(40*time.Second, func() bool { return n.S.VerifRaft().HasJoinedCluster() }) {
+		if !raftWaitFor(40*time.Second, func() bool { return n.S.VerifRaft().HasJoinedCluster() }) {
 			c.Shutdown()
 			return nil, fmt.Errorf("node %d did not join", i)
 		}
 	}
-	ok := waitFor(40*time.Second, func() bool {
+	ok := raftWaitFor(40*time.Second, func() bool {
 		f := lead.Inner.GetConfiguration()
 		if f.Error() != nil || len(f.Configuration().Servers) != len(clocks) {
 			return false
@@ -366,7 +366,7 @@ func (c *Cluster) Quiesce(minIndex uint64, d time.Duration) bool {
 	stable := 0
 	reached := false
 	var quietSince time.Time
-	waitFor(d, func() bool {
+	raftWaitFor(d, func() bool {
 		l := c.Leader().Inner.LastIndex()
 		quiet := true
 		for _, n := range c.Nodes {
